@@ -7,6 +7,7 @@ import MpVerif.C20.LemmasGen
 import MpVerif.C20.LemmasUtf8
 import MpVerif.C20.LemmasExporter
 import MpVerif.C20.LemmasExporterNL
+import MpVerif.C20.LemmasExporterVar
 /-!
 # C20 — The exported reformulation graph is well-formed and complete
 
@@ -601,5 +602,38 @@ def exEvs2 : List Ev :=
 example : (xevs exCfg {} exEvs2).rejected = 1 ∧ lastObj (xevs exCfg {} exEvs2).out 0 = some ⟨0, [3], [], []⟩
     ∧ (xevs exCfg {} exEvs2).out.filter isNlCon = [.nlCon 0 false, .nlCon 1 true]
     ∧ (xevs exCfg {} exEvs2).out.filter isObj = [.obj 0 ⟨0, [], [0, 1], [0, 1]⟩, .obj 0 ⟨0, [3], [], []⟩] := by decide
+
+/-! ### variable records (round 8) -/
+
+/-- **variable records of the exporter, for every event sequence**: every variable record names an existing flat variable and
+    carries its from-NL flag; every flat variable has a record carrying its flag; after the push the LAST record of every flat
+    variable shows its type / bounds class as they are then (what `PushVariablesTo` hands to the ModelAPI), also when bounds or
+    type were updated after the variable was created (`Ev.setVar`) -/
+theorem C20_exporter_var_records (cfg : Cfg) (evs : List Ev) :
+    (∀ i b info, Rec.var i b info ∈ (xevs cfg {} evs).out → ∃ info', (xevs cfg {} evs).vars[i]? = some (b, info')) ∧
+    (∀ i b info', (xevs cfg {} evs).vars[i]? = some (b, info') → ∃ info, Rec.var i b info ∈ (xevs cfg {} evs).out) ∧
+    ((xevs cfg {} evs).finished = true → ∀ i b info, (xevs cfg {} evs).vars[i]? = some (b, info) →
+      lastVar (xevs cfg {} evs).out i = some info) :=
+  have h := vinv_run cfg evs {} vinv_init
+  ⟨h.flag, h.has, h.fin⟩
+
+/-- **every NL variable appears, flagged as coming from NL** -/
+theorem C20_exporter_nl_vars_appear (cfg : Cfg) (evs : List Ev) (i : Nat) (info' : VarInfo)
+    (h : (xevs cfg {} evs).vars[i]? = some (true, info')) : ∃ info, Rec.var i true info ∈ (xevs cfg {} evs).out :=
+  (C20_exporter_var_records cfg evs).2.1 i true info' h
+
+/-- the final-data clause in the `pre ++ var i b v :: post` form of `WellFormed.dl_var_last` -/
+theorem C20_exporter_var_last_record (cfg : Cfg) (evs : List Ev) (i : Nat) (b : Bool) (v : VarInfo)
+    (hfin : (xevs cfg {} evs).finished = true) (hi : (xevs cfg {} evs).vars[i]? = some (b, v)) :
+    ∃ pre post b', (xevs cfg {} evs).out = pre ++ Rec.var i b' v :: post ∧ ∀ b'' v', Rec.var i b'' v' ∉ post :=
+  lastVar_spec _ i v ((C20_exporter_var_records cfg evs).2.2 hfin i b v hi)
+
+/-- non-vacuity: an NL variable and an auxiliary one whose bounds are tightened before the push; a bad `setVar` is rejected -/
+def exEvs3 : List Ev :=
+  [.addVar true ⟨0, true, true⟩, .addVar false ⟨0, false, true⟩, .setVar 1 ⟨1, false, false⟩, .setVar 9 ⟨0, false, false⟩, .finish]
+example : (xevs exCfg {} exEvs3).rejected = 1 ∧ (xevs exCfg {} exEvs3).vars = [(true, ⟨0, true, true⟩), (false, ⟨1, false, false⟩)]
+    ∧ lastVar (xevs exCfg {} exEvs3).out 1 = some ⟨1, false, false⟩
+    ∧ (xevs exCfg {} exEvs3).out.filter isVarRec
+        = [.var 0 true ⟨0, true, true⟩, .var 1 false ⟨0, false, true⟩, .var 0 true ⟨0, true, true⟩, .var 1 false ⟨1, false, false⟩] := by decide
 
 end MpVerif.C20
